@@ -9,6 +9,7 @@ import TrashVerif.Model.PathStr
 import TrashVerif.Spec.C03
 import TrashVerif.Model.Index
 import TrashVerif.Driver.World
+import TrashVerif.Driver.Oracle
 open Lean TrashVerif
 
 def hexOf (j : Json) (k : String) : Except String Bytes := do
@@ -87,7 +88,15 @@ def handle (j : Json) : Except String Json := do
     | .crash => pure (Json.mkObj [("r", "crash")])
   | "inScope" => do
     pure (Json.mkObj [("r", inScope (← hexOf j "dir") (← hexOf j "loc"))])
+  | "sortEntries" => do
+    let mode := match (← j.getObjValAs? String "mode") with
+      | "date" => SortMode.date | "path" => .path | _ => .none
+    let es ← (Oracle.arrOf j "entries").mapM fun e => do
+      let d : Option Date := match dateOf e "date" with | .ok d => some d | .error _ => none
+      pure ({ loc := ← hexOf e "loc", date := d, info := ← hexOf e "info" } : Entry)
+    pure (Json.mkObj [("r", Json.arr ((sortEntries mode es).map fun e => jhex e.info).toArray)])
   | "emptyReply" => do pure (Json.mkObj [("r", emptyReplyYes (← hexOf j "s"))])
+  | "oracle" => Oracle.handle j
   | "run" => do
     match ← j.getObjValAs? String "cmd" with
     | "put" => World.runPutWorld j
